@@ -50,6 +50,14 @@ else:
 ROOT = os.path.join(C.CACHE, "cxxgen")
 TU_DIR = os.path.join(ROOT, "tu")
 RUNTIME_INC = os.path.join(C.REPO, "pdl-compiler", "scripts")
+
+
+def runtime_header():
+    """content of /repo's packet_runtime.h (part of every cache key: a change to it must rebuild the harness)"""
+    try:
+        return open(os.path.join(RUNTIME_INC, "packet_runtime.h"), encoding="utf-8", errors="replace").read()
+    except OSError:
+        return ""
 CXX = os.environ.get("CXX", "g++")
 BASE_FLAGS = ["-std=c++17", "-O1", "-g0", "-fsanitize=address,undefined", "-fno-sanitize-recover=all"]
 GLUE_VERSION = "3"
@@ -721,7 +729,8 @@ class CxxHarness:
             glue = g.generate()
             for t, why in g.unsupported.items():
                 self.unsupported[(i, t)] = why
-            key = hashlib.sha1(("\0".join([GLUE_VERSION, HX_H, code, glue])).encode()).hexdigest()[:20]
+            # the key covers everything a translation unit is compiled from, the repository's runtime header included
+            key = hashlib.sha1(("\0".join([GLUE_VERSION, HX_H, runtime_header(), code, glue])).encode()).hexdigest()[:20]
             sym = "hx_dispatch_" + key
             tu = ("// translation unit of one description (generated)\n#include \"hx.h\"\n"
                   "namespace {\n#include \"gen.h\"\n\n// ---- glue ----\n%s}  // anonymous namespace\n\n%s"
